@@ -269,6 +269,8 @@ PROPS["C15"] = {
         {"pkg": HQ, "func": "VerifH_C15_producer", "replay_tries": 2, "covers": ["hq-failed-first", "timer-flush", "outlink-arrives-during-retry", "stopped"]},
         {"pkg": HQ, "func": "VerifH_C15_finisher", "replay_tries": 2, "replay_timeout_s": 40, "covers": ["hq-failed-first", "hq-unanswered", "timer-flush", "stopped"]},
         {"pkg": HQ, "func": "VerifH_C15_finisher3", "thorough_only": True, "replay_tries": 2, "replay_timeout_s": 40, "opts": {"max_wall_s": 1800}, "covers": ["hq-failed-first", "hq-unanswered", "timer-flush", "stopped"]},
+        {"pkg": HQ, "func": "VerifH_C15_finisher_stalled", "replay_tries": 1, "replay_timeout_s": 120, "opts": {"no_preempt": True},
+         "covers": ["hand-over-channel-full", "stopped"]},
         {"pkg": HQ, "func": "VerifH_C15_producer_timeout", "replay_tries": 1, "replay_timeout_s": 60, "covers": ["hq-failed-first", "timer-flush", "stopped"]},
         {"pkg": "internal/pkg/source/lq", "func": "VerifH_C15_lq", "replay_tries": 2, "replay_timeout_s": 60,
          "opts": {"sleep_env": True, "map_order_all": False, "max_steps": 20000000, "max_wall_s": 900, "no_preempt": True},
@@ -551,3 +553,9 @@ _rb = {"pkg": AR, "func": "VerifH_C06_retry_bound", "models": ARCH_MODELS, "repl
        "covers": ["retries-exhausted", "large-retry-budget"]}
 PROPS["C06"]["harnesses"].append(dict(_rb))
 PROPS["C06"]["bounds"] += "; archive() retry loop: max-retry in {0,1,3,6,7} with every attempt failing as a transport error, 503 or 429"
+
+
+# the seencheck step where the preprocessor applies it (real preprocess(), local store)
+PROPS["C08"]["harnesses"].append({"pkg": PRE, "func": "VerifH_C08_preprocess", "models": {k: v for k, v in URL_MODELS.items() if not k.endswith("models.URLToString")},
+                                  "opts": {"map_order_all": False}, "covers": ["seen-asset", "new-asset", "two-seen-assets-in-a-row"]})
+PROPS["C08"]["bounds"] += "; preprocess(): a page with three assets of which any subset was recorded by an earlier page"
